@@ -62,11 +62,26 @@ def run(ctx, R, tier):
               "that asks again keeps receiving items from a failed stream" % [unparse(h.type) if h.type is not None else "<bare>" for h in T.handlers]
         if ok:
             H = covering[0]
-            dels = [st for st in H.body if isinstance(st, ast.Delete) and any(isinstance(t, ast.Subscript) and tbl_expr(t.value) and unparse(t.slice) == sid for t in st.targets)]
+            hstmts = [x for st in H.body for x in walk_no_nested(st) if isinstance(x, ast.stmt)] + [st for st in H.body]
+            dels = [st for st in hstmts if isinstance(st, ast.Delete) and any(isinstance(t, ast.Subscript) and tbl_expr(t.value) and unparse(t.slice) == sid for t in st.targets)]
+            pops = [st for st in hstmts if isinstance(st, ast.Expr) and isinstance(st.value, ast.Call) and isinstance(st.value.func, ast.Attribute)
+                    and st.value.func.attr == "pop" and tbl_expr(st.value.func.value) and st.value.args and unparse(st.value.args[0]) == sid]
             rer = [st for st in H.body if isinstance(st, ast.Raise) and st.exc is None]
-            ok = bool(dels) and bool(rer) and isinstance(H.body[-1], ast.Raise)
+            ok = bool(dels or pops) and bool(rer) and isinstance(H.body[-1], ast.Raise)
             why = "the handler does not delete the stream entry and re-raise"
+            def keyerror_contained(st):
+                for t, part in enclosing_trys(st, g.node):
+                    if part == "body" and t is not T and any(handler_is_catch_all(h) or (h.type is not None and any(
+                            x in unparse(h.type) for x in ("KeyError", "LookupError"))) for h in t.handlers):
+                        return True
+                return False
+            removal_safe = all(keyerror_contained(st) for st in dels) and all(len(st.value.args) == 2 or keyerror_contained(st) for st in pops)
     R.check(ok, "C10-R1", "get_next_stream_item|remove-on-any-failure", "any exception of next(stream) (also StopIteration) removes the stream and is re-raised", g.loc(nexts[0]), why)
+    if ok:
+        R.check(removal_safe, "C10-R1", "get_next_stream_item|removal-cannot-raise",
+                "the removal in the handler cannot itself raise (pop with a default): housekeeping may have dropped the entry while next() ran", g.loc(H),
+                "the handler removes the entry with a plain `del` / `pop` without default: when housekeeping (lifetime or linger expiry) removed it while next(stream) "
+                "was running, KeyError replaces the StopIteration or the generator's own exception")
     cs = ctx.fn("Pyro5.server.DaemonObject.close_stream")
     dels = [st for st, t, k in stores_in(cs.node) if k == "del" and isinstance(t, ast.Subscript) and tbl_expr(t.value)]
     R.check(len(dels) == 1, "C10-R1", "close_stream|deletes-entry", "an explicit close forgets the stream", cs.loc(), "close_stream no longer deletes the entry")
